@@ -17,9 +17,11 @@ RULE = ("E1: SumdbClient with several threads and clients, every separately atom
         "hook point is a gate, the scheduler releases exactly the goroutine the model's next step names (thread identity by goroutine id) "
         "and waits for quiescence (runtime.Stack polling). E3: 8-64 goroutines x 1-3 clients against the repository's Server/TestServer "
         "under the race detector, events ordered by a sequence number taken under the recorder's lock, validated by SumdbMonitor. "
-        "Non-trivial = every schedule (at least two concurrent lookups).")
+        "The honest server of E3 has a specification of its own (SumdbServer: append-only log without duplicates, lookups covered by the "
+        "head they carry, tiles that exist exactly when the log has their hashes); every session of 4/5 requests is replayed over HTTP "
+        "against sumdb.Server / TestServer and 24-way concurrent lookups are recorded. Non-trivial = every schedule (at least two concurrent lookups).")
 
-KEEP = ("c14:",)
+KEEP = ("c14:", "server:", "conc:")
 
 
 def split_file(path, n):
@@ -43,6 +45,10 @@ def run(ctx):
     ctx.prove("LatestMerge", apalache_args=["--cinit=CInit", "--init=IndInit", "--inv=IndInv", "--next=Next", "--length=1"])
     if not q:
         ctx.tlc("LatestMerge", "LatestMerge", workers=8, timeout=1800, name="LatestMerge(3 threads, heads 0..3)")
+    # the honest server of E3 is the repository's Server over TestServer: its own specification, sessions replayed over HTTP
+    from vcore import gen_and_replay, record_and_validate
+    gen_and_replay(ctx, "sumserver", "SumdbServerGen", "SumdbServerGen_h2" if q else "SumdbServerGen_h1", floor=5000, workers=6, timeout=1800)
+    record_and_validate(ctx, "sumserver", "SumdbServerTrace", "SumdbServerTrace", 60 if q else 600, shards=2)
     # E2: simulated schedules replayed deterministically
     nsim = 80 if q else 2500
     out, res = sumdbmc.run_configs(ctx, sumdbmc.c14_sim_configs(ctx.tier), workers_each=1, parallel=4, timeout=3000, label="C14sim",
